@@ -33,6 +33,12 @@ RULE = ('layouts = (piece length, file sizes in metainfo order): exhaustive smal
         'they do not); non-trivial = a file changes before a generate() while another stream is open or after an earlier '
         'run, or an object\'s metainfo is edited between a look at it (getter / run) and a generate() on it; distinct = '
         'distinct (layout, operations).  '
+        'failing read layer = layout + a fault plan for the RAW file under a real io.BufferedReader (short raw reads of '
+        '1 byte .. 8 KiB, raw read calls that raise EIO / EINTR / EAGAIN / ESTALE / ETIMEDOUT / ENOMEM / EBADF or '
+        'MemoryError once, a few times or for ever at the first / a middle / the last raw read of a file, of a piece '
+        'spanning two files, of the final short piece; raw seeks that raise): a read() then consumes bytes before it '
+        'raises; judged: True only with exactly the chunk digests, otherwise nothing stored, no fault => True; '
+        'non-trivial = a fault fired; distinct = distinct (layout, plan, level).  '
         'schedules = generate() under the deterministic scheduler (strategies uniform / PCT / stall / '
         'timeouts-first, 1..4 hashers) x hasher faults (the n-th sha1() call of hasher k raises); non-trivial = a fault '
         'fired or >= 2 hashers; distinct = distinct (layout, strategy+seed, fault plan)')
@@ -917,6 +923,210 @@ def evaluate_histories(ctx, drv, cases):
                 break
 
 
+# ====================================================================================== failing read layer
+# iter_pieces() / generate() over content files whose RAW layer fails under a real io.BufferedReader
+# (harness/impl/rawfault.py; model: lean/Torf/Model/StreamFault.lean; theorems C01_read_fault_never_true,
+# C01_read_fault_code_partial, C01_read_fault_no_loss_exact, C01_read_fault_seek_back_sound).
+
+RAW_ERRS = ['EIO', 'EINTR', 'EAGAIN', 'ESTALE', 'ETIMEDOUT', 'ENOMEM', 'EBADF']
+
+
+def _mem_lost_only(case, observed, finding):
+    """D01a: the only faults that fired are MemoryErrors, one of them after the failing read() had consumed bytes"""
+    raw = (observed or {}).get('raw') or {}
+    fired = raw.get('fired') or []
+    # (EINTR is repeated by io.BufferedReader itself and never surfaces)
+    return (case.get('kind') == 'raw' and bool(fired) and all(f[1] in ('MemoryError', 'EINTR') for f in fired)
+            and any(r[0] == 'fail' and r[3] == 'mem' and r[2] > 0 for r in raw.get('reads') or [])
+            and observed.get('ret') is True)
+
+
+MATCHERS['memoryerror_in_the_middle_of_a_read'] = _mem_lost_only
+
+
+def _run_raw_chunk(cases):
+    import copy
+    from harness.impl import rawfault
+    torf = common.import_torf()
+    from torf import _stream
+    wd = common.worker_dir()
+    out = []
+    for c in cases:
+        L, sizes = c['L'], c['sizes']
+        files = [{'path': p, 'size': s} for p, s in zip(c['paths'], sizes)]
+        single = c.get('single', False)
+        obs = {}
+        plan = copy.deepcopy(c['raw'])
+        try:
+            contents = content.make_tree(wd, 'T', files, seed=c['cseed'], single=single)
+            t = content.make_torrent(torf, wd, 'T', files, L, single=single, via_setter=c.get('via_setter', False))
+            _stream.open = rawfault.open_factory(plan)
+            try:
+                if c['level'] == 'stream':
+                    with _stream.TorrentFileStream(t) as tfs:
+                        items = list(tfs.iter_pieces())
+                    obs['stream'] = [(p, [type(e).__name__ for e in exc]) for (p, fp, exc) in items]
+                else:
+                    obs['ret'] = t.generate(threads=c.get('threads'))
+            except BaseException as e:  # noqa
+                obs['exc'] = f'{type(e).__name__}: {e}'[:200]
+                obs['exc_type'] = type(e).__name__
+                obs['exc_torf'] = isinstance(e, torf.TorfError)
+            obs['pieces'] = t.metainfo['info'].get('pieces')
+            obs['hashes'] = list(t.hashes)
+        except BaseException:  # noqa
+            import traceback
+            obs = {'harness_exc': traceback.format_exc()[-1500:]}
+            contents = []
+        finally:
+            _stream.__dict__.pop('open', None)
+        obs['raw'] = {k: plan.get(k) for k in ('calls', 'seeks', 'fired', 'reads')}
+        out.append((c, obs, contents))
+    return out
+
+
+def gen_raw(ctx, scale=1.0):
+    rng = ctx.rng
+    cases = []
+    for _ in range(int(ctx.n(700, 25000) * scale)):
+        real = rng.random() < 0.2
+        L = 16384 if real else rng.choice([2, 3, 4, 5, 8, 16, 64])
+        n = rng.randint(1, 4)
+        if real:
+            sizes = [rng.choice([1, L - 1, L, L + 1, rng.randint(1, 3 * L), rng.randint(2 * L, 4 * L)]) for _ in range(n)]
+            cap = rng.choice([8192, 8192, 4096, 5000, [8192, 100], [100, 8192], 1 << 20])
+        else:
+            sizes = [max(0, layouts.boundary_sizes(rng, L)) for _ in range(n)]
+            cap = rng.choice([1, 1, 2, 2, 3, [1, 2], [2, 1, 3], [1, 1, 4], 5, 8192])
+        if sum(sizes) == 0:
+            sizes[0] = L + 1
+        if rng.random() < 0.6:
+            # room in the last piece: lost bytes do not change the number of pieces
+            total = sum(sizes)
+            want_tail = rng.choice([0, 0, L - 1, max(1, L // 2)]) % L        # 0 = a full last piece
+            sizes[-1] += (want_tail - total) % L
+        caps = cap if isinstance(cap, list) else [cap]
+        est = sum(-(-s // max(1, min(caps))) + 1 for s in sizes) if not real else sum(s // 4096 + 2 for s in sizes)
+        faults = []
+        w = rng.random()
+        if w > 0.12:
+            for _ in range(1 if w < 0.8 else 2):
+                err = 'MemoryError' if rng.random() < 0.15 else rng.choice(RAW_ERRS)
+                # io.BufferedReader itself repeats a raw read that raised EINTR (PEP 475) and torf repeats a read that
+                # raised MemoryError for as long as the piece queue can shrink: those two only a few times in a row
+                times = rng.choice([1, 1, 2, 3]) if err in ('MemoryError', 'EINTR') else rng.choice([1, 1, 1, 2, 3, 0])
+                faults.append({'at': rng.randint(1, max(1, est)), 'err': err, 'times': times})
+        raw = {'max_read': cap, 'faults': faults}
+        if rng.random() < 0.05:
+            raw['seek_faults'] = [{'at': rng.randint(1, n), 'err': rng.choice(['EIO', 'ESTALE', 'EBADF'])}]
+        c = {'kind': 'raw', 'L': L, 'sizes': sizes, 'paths': layouts.paths_for(len(sizes), rng, nested=False),
+             'cseed': rng.randrange(1 << 30), 'level': 'stream' if rng.random() < 0.25 else 'generate',
+             'threads': rng.randint(1, 4), 'single': False, 'via_setter': real, 'raw': raw}
+        cases.append(c)
+    return cases
+
+
+def evaluate_raw(ctx, drv, cases):
+    from harness.impl import rawfault
+    results = common.pmap(_run_raw_chunk, common.split(cases, common.NPROC * 4))
+    flat = [x for chunk in results for x in chunk]
+    for c, obs, _ in flat:
+        if 'harness_exc' in obs:
+            raise RuntimeError(f'harness failure: {obs["harness_exc"]}')
+    replies = drv.run([{'op': 'c01.readfault', 'L': c['L'], 'sizes': c['sizes'], 'plan': rawfault.model_plan(obs['raw'])}
+                       for c, obs, _ in flat])
+    for (c, obs, contents), r in zip(flat, replies):
+        case = {k: c[k] for k in ('kind', 'L', 'sizes', 'paths', 'cseed', 'level', 'threads', 'single', 'via_setter', 'raw')}
+        raw = obs['raw']
+        fired = raw.get('fired') or []
+        reads = raw.get('reads') or []
+        lost_os = sum(x[2] for x in reads if x[0] == 'fail' and x[3] == 'os' and x[2] > 0)
+        lost_mem = sum(x[2] for x in reads if x[0] == 'fail' and x[3] == 'mem' and x[2] > 0)
+        seek_fired = any(f[0] < 0 for f in fired)
+        ctx.case(key=json.dumps([c['L'], c['sizes'], c['raw'], c['level']]), nontrivial=bool(fired),
+                 kind=f"raw/{c['level']}/" + ('real-16k' if c['via_setter'] else 'small'))
+        ctx.dist['raw: raw read calls'] += raw.get('calls') or 0
+        for f in fired:
+            ctx.dist['raw: fired ' + f[1]] += 1
+        if lost_os or lost_mem:
+            ctx.dist['raw: a failing read() had consumed bytes'] += 1
+        ctx.sample({'case': case, 'reads': reads[:8], 'fired': fired[:4], 'model': r['model']['kind']}, limit=3)
+        stream = b''.join(contents)
+        want = [stream[i:i + c['L']] for i in range(0, len(stream), c['L'])]
+        exp = b''.join(common.sha1(w) for w in want)
+        observed = {'ret': obs.get('ret'), 'exc': obs.get('exc'), 'raw': raw,
+                    'pieces': (obs.get('pieces') or b'').hex()[:120]}
+        # ---- I in S
+        if c['level'] == 'stream':
+            if 'exc' in obs:
+                ok = bool(fired)          # a run without a fault must not raise
+            else:
+                got = [p for p, _ in obs['stream']]
+                ok = got == want and not any(e for _, e in obs['stream'])
+            if not ok:
+                ctx.violation('iter_pieces() over a failing read layer yielded pieces that are not the chunks of the '
+                              'files\' bytes (or raised without a fault)', case,
+                              [w.hex()[:40] for w in want[:6]],
+                              dict(observed, got=[(p.hex()[:40] if p is not None else None)
+                                                  for p, _ in obs.get('stream', [])[:6]]), MATCHERS)
+                continue
+            ctx.dist['raw/stream: ' + ('raised' if 'exc' in obs else 'exact pieces')] += 1
+            continue
+        problems = []
+        if obs.get('ret') is True:
+            if obs.get('pieces') != exp or obs.get('hashes') != [common.sha1(w) for w in want]:
+                n_got = len(obs.get('pieces') or b'') // 20
+                wrong = [i for i in range(min(n_got, len(want)))
+                         if obs['pieces'][20 * i:20 * i + 20] != exp[20 * i:20 * i + 20]]
+                problems.append(f'generate() returned True but stored {n_got} digests of which those at piece indexes '
+                                f'{wrong[:12]} are not the SHA-1 of the chunks of the files\' bytes '
+                                f'({lost_os + lost_mem} bytes were consumed by read() calls that raised)')
+        else:
+            if obs.get('pieces') is not None:
+                problems.append(f'generate() did not return True ({obs.get("ret")!r} / {obs.get("exc")}) but stored pieces')
+            if not fired:
+                problems.append(f'no fault fired (short raw reads only) but generate() did not return True: '
+                                f'{obs.get("ret")!r} / {obs.get("exc")}')
+            if 'exc' in obs and not obs.get('exc_torf'):
+                problems.append(f'the failure surfaced as {obs["exc"]}, not as a torf error')
+        known = None
+        if problems:
+            known = ctx.violation('generate() over a failing read layer: ' + '; '.join(problems), case,
+                                  {'ret_true_only_with': exp.hex()[:120], 'digests': len(want)}, observed, MATCHERS)
+            if known is None:
+                continue
+        else:
+            bucket = ('True, exact' if obs.get('ret') is True else
+                      'False' if 'exc' not in obs else 'raised ' + str(obs.get('exc_type')))
+            ctx.dist[f'raw/generate: {"fault" if fired else "no fault"} -> {bucket}'] += 1
+        # ---- M in S (theorems) and I = M
+        if r['hyp'] and not r['sound']:
+            ctx.machinery_error('model contradicts C01_read_fault_code_partial', case)
+            continue
+        if seek_fired:
+            continue                      # the model has no failing seek
+        mk = r['model']['kind']
+        if obs.get('ret') is True:
+            same = False
+            if mk == 'stored':
+                mp = content.pieces_from_runs(r['model']['pieces'], contents)
+                same = b''.join(common.sha1(w) for w in mp) == obs.get('pieces')
+            if same or known is None:
+                if not same:
+                    # exact digests where the code as modelled gives up or loses bytes: allowed by C01
+                    ctx.dist['raw/generate: recovered exactly where the code as modelled does not (allowed)'] += 1
+                agree = True
+            else:
+                agree = False             # a known finding: the model must predict exactly these wrong digests
+        elif 'exc' in obs:
+            agree = mk == 'raised'
+        else:
+            agree = mk == 'cancelled'
+        if not agree:
+            ctx.corr_break('c01.readfault', case, {'model': mk, 'osRaised': r['osRaised'], 'lost': r['lost']},
+                           {'ret': obs.get('ret'), 'exc': obs.get('exc'), 'reads': reads[:12]})
+
+
 # ====================================================================================== schedules
 # generate() under the deterministic scheduler with hasher faults (model: lean/Torf/Model/PipelineHF.lean,
 # theorems C01_hash_fault_sound, C01_hash_fault_lost_not_success, C01_hash_fault_off_refines).
@@ -956,11 +1166,21 @@ def gen_sched(ctx, scale=1.0):
                 f = [f'hasher{h}', rng.choice([1, 1, 1, 2, 2, 3, 4])]
                 if f not in faults:
                     faults.append(f)
-        cases.append({'kind': 'sched', 'mode': 'generate', 'L': L, 'sizes': sizes,
-                      'paths': layouts.paths_for(len(sizes), rng, nested=False), 'cseed': rng.randrange(1 << 30),
-                      'threads': threads, 'disk': ['ok'] * len(sizes), 'flips': [], 'cb': None, 'interval': 0,
-                      'strategy': _mk_strategy(rng, threads), 'hash_fault': faults,
-                      'max_steps': 2500 if faults else 20000})
+        c = {'kind': 'sched', 'mode': 'generate', 'L': L, 'sizes': sizes,
+             'paths': layouts.paths_for(len(sizes), rng, nested=False), 'cseed': rng.randrange(1 << 30),
+             'threads': threads, 'disk': ['ok'] * len(sizes), 'flips': [], 'cb': None, 'interval': 0,
+             'strategy': _mk_strategy(rng, threads), 'hash_fault': faults,
+             'max_steps': 2500 if faults else 20000}
+        if rng.random() < 0.12:
+            # instead: a raw read that raises under io.BufferedReader (a read() that consumed bytes and then failed)
+            cap_ = rng.choice([1, 2, [1, 2], 3])
+            c['hash_fault'] = []
+            c['max_steps'] = 20000
+            c['raw_fault'] = {'max_read': cap_, 'faults': [{
+                'at': rng.randint(1, max(1, total // (cap_ if isinstance(cap_, int) else 1) + 2 * len(sizes))),
+                'err': rng.choice(['EIO', 'EAGAIN', 'ESTALE', 'ETIMEDOUT', 'ENOMEM', 'EBADF']),
+                'times': rng.choice([1, 1, 2, 0])}]}
+        cases.append(c)
     return cases
 
 
@@ -992,15 +1212,22 @@ def evaluate_sched(ctx, drv, cases):
         pqm = (obs.get('structure') or {}).get('pq_max')
         cfg = {'N': c['threads'], 'cap': pqm if pqm and pqm > 0 else 3 * c['threads'], 'items': ['data'] * n,
                'readFault': None, 'refuse': [], 'raiseOnBad': True, 'cbByDone': []}
+        if (obs.get('raw_fault') or {}).get('fired') and ((obs.get('result') or {}).get('raised') or {}).get('kind') == 'read':
+            # the generator raised instead of yielding item r = number of pieces the reader had pushed
+            cfg['readFault'] = sum(1 for e in obs['trace'] if e[0] == 'reader' and e[1] == 'pq.put' and e[2] == 'go') - 1
         reqs.append({'op': 'c01.replayx', 'cfg': cfg, 'L': c['L'], 'sizes': c['sizes'],
                      'hashFault': [[int(h[6:]) - 1, k - 1] for h, k in c['hash_fault']], 'trace': obs['trace']})
     replies = drv.run(reqs)
     for (c, obs), rep in zip(flat, replies):
         case = {k: c[k] for k in ('kind', 'mode', 'L', 'sizes', 'paths', 'cseed', 'threads', 'disk', 'flips', 'cb',
                                   'interval', 'strategy', 'hash_fault', 'max_steps')}
+        if c.get('raw_fault'):
+            case['raw_fault'] = c['raw_fault']
         fired = sorted(h for h, _ in obs['hash_fault_fired'])
-        ctx.case(key=json.dumps(case, sort_keys=True), nontrivial=bool(fired) or c['threads'] >= 2,
-                 kind=f"sched/{c['strategy']['kind']}/N{c['threads']}/{'fault' if c['hash_fault'] else 'nofault'}")
+        raw_fired = [f for f in ((obs.get('raw_fault') or {}).get('fired') or []) if f[1] != 'EINTR']
+        ctx.case(key=json.dumps(case, sort_keys=True), nontrivial=bool(fired) or bool(raw_fired) or c['threads'] >= 2,
+                 kind=f"sched/{c['strategy']['kind']}/N{c['threads']}/" +
+                      ('raw-fault' if c.get('raw_fault') else 'fault' if c['hash_fault'] else 'nofault'))
         ctx.dist['sched-steps'] += obs['steps']
         ctx.sample({'case': case, 'outcome': obs['outcome'], 'result': obs['result'], 'fired': obs['hash_fault_fired'],
                     'trace_tail': obs['trace'][-8:]}, limit=3)
@@ -1023,18 +1250,23 @@ def evaluate_sched(ctx, drv, cases):
                 problems.append(f'generate() did not return True ({res}) but stored a piece string')
             if res and 'returned' in res and ret is not False:
                 problems.append(f'generate() returned {ret!r}')
-        if not fired and not hang and ret is not True:
+        if not fired and not raw_fired and not hang and ret is not True:
             problems.append(f'no fault fired but generate() did not return True: {res}')
         if not fired and hang:
-            problems.append(f'no fault fired but the run does not return: threads at {obs["stuck"]}')
+            problems.append(f'no hasher fault fired but the run does not return: threads at {obs["stuck"]}')
         if problems:
             ctx.violation(f'generate(threads={c["threads"]}) under schedule {c["strategy"]["kind"]} with hasher faults '
-                          f'{c["hash_fault"]}: ' + '; '.join(problems), case,
+                          f'{c["hash_fault"]}' + (f' / raw read faults {c["raw_fault"]}' if c.get('raw_fault') else '') +
+                          ': ' + '; '.join(problems), case,
                           {'ret_true_only_with': obs['want_pieces'].hex()[:120], 'digests': obs['total']},
                           {'result': res, 'stored': (stored or b'').hex()[:120], 'fired': obs['hash_fault_fired'],
+                           'raw_fired': raw_fired, 'raw_reads': ((obs.get('raw_fault') or {}).get('reads') or [])[:12],
                            'outcome': obs['outcome'], 'trace_tail': obs['trace'][-25:]}, MATCHERS)
             continue
-        if not fired:
+        if raw_fired:
+            ctx.dist['sched: raw read fault -> ' + ('True, exact' if ret is True else 'False' if ret is False else
+                                                      'raised ' + str(((res or {}).get('raised') or {}).get('kind')))] += 1
+        elif not fired:
             ctx.dist['sched: no fault fired -> True'] += 1
         elif hang:
             ctx.dist['sched: fault, run does not return (no success claimed; see notes: candidate finding)'] += 1
@@ -1059,6 +1291,9 @@ def evaluate_sched(ctx, drv, cases):
             agree = rep['terminal'] and mg == 'stored'
         elif ret is False:
             agree = rep['terminal'] and mg == 'cancelled'
+        elif raw_fired:
+            agree = (rep['terminal'] and mg == 'raised' and ((res or {}).get('raised') or {}).get('kind') == 'read' and
+                     ((rep['result'] or {}).get('raised') or {}).get('kind') == 'read')
         else:
             is_inj = bool(res and 'raised' in res and res['raised'].get('exc_type') == 'MemoryError')
             agree = rep['terminal'] and mg == 'raised' and is_inj and 'hasherExc' in (rep['result'] or {})
@@ -1082,9 +1317,12 @@ def _corpus_cases():
 
 def _dispatch(ctx, drv, cases):
     """route cases (corpus, replay) to the evaluator of their kind"""
-    plain = [c for c in cases if c.get('kind') not in ('history', 'sched')]
+    plain = [c for c in cases if c.get('kind') not in ('history', 'sched', 'raw')]
     hist = [c for c in cases if c.get('kind') == 'history']
     sch = [c for c in cases if c.get('kind') == 'sched']
+    rawc = [c for c in cases if c.get('kind') == 'raw']
+    if rawc:
+        evaluate_raw(ctx, drv, rawc)
     if plain:
         evaluate(ctx, drv, plain)
     if hist:
@@ -1105,6 +1343,11 @@ def run(ctx, drv):
         'distinct paths and positive piece lengths; the content path is attached to Torrent._path by the harness (as for '
         'every C01 case) and re-attached after the files/filepaths setters and copy(); the demand is computed from the '
         'raw mapping Torrent.metainfo[\'info\'] (no getter) and the harness\' own record of the disk',
+        'failing read layer: the raw layer (harness/impl/rawfault.py) is an io.FileIO subclass under the real '
+        'io.BufferedReader handed out by a shadowed open() of torf._stream; the model works at the granularity of '
+        'fh.read(size) calls, its plan (ok | consume k then raise) is the trace recorded by a tracing subclass of '
+        'BufferedReader (k = logical position after - before); EINTR is repeated by BufferedReader itself; an exact '
+        'result where the modelled code gives up (a retry that seeks back) is accepted',
         'schedules: same granularity and shim as C03/C04 (one label per queue/event/thread operation); a hasher fault is an '
         'exception raised by sha1() inside HasherPool._handle_piece (module global torf._generate.sha1 replaced from the harness)',
     ]
@@ -1112,6 +1355,7 @@ def run(ctx, drv):
     if corpus:
         _dispatch(ctx, drv, corpus)
     evaluate(ctx, drv, gen_cases(ctx))
+    evaluate_raw(ctx, drv, gen_raw(ctx))
     evaluate_histories(ctx, drv, gen_histories(ctx))
     evaluate_sched(ctx, drv, gen_sched(ctx))
     ctx.exhaustive = False
@@ -1119,13 +1363,14 @@ def run(ctx, drv):
 
 def search(ctx, drv):
     evaluate(ctx, drv, gen_cases(ctx, scale=3.0))
+    evaluate_raw(ctx, drv, gen_raw(ctx, scale=3.0))
     evaluate_histories(ctx, drv, gen_histories(ctx, scale=3.0))
     evaluate_sched(ctx, drv, gen_sched(ctx, scale=3.0))
 
 
 def replay(ctx, drv, rp):
     c = dict(rp['case'])
-    if c.get('kind') not in ('history', 'sched'):
+    if c.get('kind') not in ('history', 'sched', 'raw'):
         c.setdefault('level', 'both')
     _dispatch(ctx, drv, [c])
     return {'fails': bool(ctx.violations or ctx.corr_breaks), 'violations': ctx.violations,
